@@ -112,10 +112,16 @@ impl InferShapes for Div {
         sym_gen: &mut SymbolGen,
     ) -> Result<Vec<SymTensor>, InferShapesError> {
         let div = |x: &SymExpr, y: &SymExpr| {
-            Some(match (x, y) {
-                (SymExpr::Value(x), SymExpr::Value(y)) if *y != 0 => SymExpr::Value(x / y),
-                _ => x.clone() / y.clone(),
-            })
+            match (x, y) {
+                // Constant values may come from a float tensor with integer
+                // values, in which case the operator performs float rather
+                // than integer division. The two only agree for exact
+                // quotients, so the value is left unknown otherwise.
+                (SymExpr::Value(x), SymExpr::Value(y)) => (*y != 0
+                    && x.checked_rem(*y) == Some(0))
+                .then(|| SymExpr::Value(x / y)),
+                _ => Some(x.clone() / y.clone()),
+            }
         };
         binary_op_infer_shapes(inputs, sym_gen, div)
     }
